@@ -46,7 +46,7 @@ class C02(PropBase):
                    "the twin must accept the stream in one delivery and reproduce the values sent, otherwise the case is a codec/lifecycle "
                    "matter (C01/C04/C08) and is discarded and counted",
                    "deep copies of a prepared session behave like the session"]
-    RUNS = {"quick": 2400, "thorough": 60000}
+    RUNS = {"quick": 1600, "thorough": 40000}
     STEPS = {"quick": 400, "thorough": 400}
     REQUIRED_REACH = ("cut_in_longform_length", "residue_across_3_calls", "empty_chunk_with_residue", "three_pdus_completed_with_residue",
                       "memoryview_input", "scribbled_after_call", "cut_in_tag_or_first_len", "pdu_boundary_inside_chunk",
@@ -367,7 +367,8 @@ class C02(PropBase):
         n = len(stream)
         role = st.w.init["role"]
         T = st.w.s["T"].real
-        limit = 700 if self.tier == "quick" else 5000
+        budget = 150000 if self.tier == "quick" else 1500000  # bytes re-parsed per stream, keeps huge streams affordable
+        limit = max(40, min(700 if self.tier == "quick" else 5000, budget // max(1, n)))
         if n < 2:
             return
         offs = list(range(1, n))
@@ -383,7 +384,7 @@ class C02(PropBase):
         for k in offs:
             self._cut_run(st, [k], T, role)
             st.hit("sweep_single_cuts")
-        pairs = 60 if self.tier == "quick" else 400
+        pairs = max(5, min(60 if self.tier == "quick" else 400, budget // max(1, 3 * n)))
         for _ in range(pairs):
             if n < 3:
                 break
